@@ -580,7 +580,7 @@ func c13GenHistory(rng *rand.Rand, kind string, weighted bool, mode string) c13C
 
 // scripted histories: the update patterns a manager produces (and the ones it does not), each followed by a selection run
 func c13GenScenario(rng *rand.Rand, kind string, weighted bool, mode string, which int) c13Case {
-	names := []string{"shrinking-refresh-then-remove", "add-all-remove-some-readd", "remove-with-other-weight", "refresh-with-duplicates", "drain-to-empty"}
+	names := []string{"shrinking-refresh-then-remove", "add-all-remove-some-readd", "remove-with-other-weight", "refresh-with-duplicates", "drain-to-empty", "weight-table-transitions"}
 	which %= len(names)
 	c := c13Case{Kind: kind, Weighted: weighted, Class: fmt.Sprintf("%s/w=%v/%s/%s", kind, weighted, mode, names[which])}
 	k := 2 + rng.Intn(7)
@@ -650,6 +650,56 @@ func c13GenScenario(rng *rand.Rand, kind string, weighted bool, mode string, whi
 		c.Ops = append(c.Ops, c13Op{Op: "add", Eps: []c13Ep{u[rng.Intn(k)]}})
 		sel()
 		c.Ops = append(c.Ops, c13Op{Op: "refresh", Eps: nil})
+		sel()
+	case 5:
+		// a set WITH a weight table (all static, positive) -> sets for which BuildStaticWeightList returns nil, smaller than
+		// the old table's indices, and back: the table must be recomputed (dropped) on every rebuild
+		for j := range u {
+			u[j].WType, u[j].Weight = 1, []int32{1, 2, 5, 10, 50, 100, 100}[rng.Intn(7)]
+		}
+		if k < 3 {
+			u = append(u, c13Ep{Host: "table-3", Port: 10001, WType: 1, Weight: 100})
+			k = len(u)
+		}
+		with := func() {
+			c.Ops = append(c.Ops, c13Op{Op: "refresh", Eps: append([]c13Ep(nil), u...)})
+			sel()
+		}
+		alter := func(n int, f func(j int, e *c13Ep)) []c13Ep {
+			l := append([]c13Ep(nil), u[:n]...)
+			for j := range l {
+				f(j, &l[j])
+			}
+			return l
+		}
+		small := 1 + rng.Intn(k-1)
+		with()
+		c.Ops = append(c.Ops, c13Op{Op: "refresh", Eps: alter(small, func(_ int, e *c13Ep) { e.WType, e.Weight = 0, 0 })}) // loop mode
+		sel()
+		with()
+		c.Ops = append(c.Ops, c13Op{Op: "refresh", Eps: alter(small, func(j int, e *c13Ep) { e.Weight = []int32{0, -1, -200, 0}[j%4] })}) // no positive weight
+		sel()
+		with()
+		c.Ops = append(c.Ops, c13Op{Op: "refresh", Eps: nil}) // through the empty set, then a weight-0 endpoint
+		zero := u[rng.Intn(k)]
+		zero.Weight = 0
+		c.Ops = append(c.Ops, c13Op{Op: "add", Eps: []c13Ep{zero}})
+		sel()
+		with()
+		c.Ops = append(c.Ops, c13Op{Op: "refresh", Eps: alter(1+rng.Intn(k-1), func(j int, e *c13Ep) { e.WType = int32(j % 2) })}) // mixed types
+		sel()
+		with()
+		// via Add / Remove: a loop-mode endpoint joins (table gone), then the set shrinks below the old table's indices
+		loop := c13Ep{Host: "loop-mode", Port: 10002, WType: 0, Weight: 0}
+		c.Ops = append(c.Ops, c13Op{Op: "add", Eps: []c13Ep{loop}})
+		sel()
+		for _, p := range rng.Perm(k)[:k-rng.Intn(2)] {
+			c.Ops = append(c.Ops, c13Op{Op: "remove", Eps: []c13Ep{u[p]}})
+		}
+		sel()
+		c.Ops = append(c.Ops, c13Op{Op: "remove", Eps: []c13Ep{loop}}) // ... and back
+		c.Ops = append(c.Ops, c13Op{Op: "add", Eps: []c13Ep{u[0]}})
+		c.Ops = append(c.Ops, c13Op{Op: "add", Eps: []c13Ep{u[1]}})
 		sel()
 	}
 	return c
